@@ -10,6 +10,7 @@ import (
 
 	"github.com/rqlite/rqlite/v10/db/wal"
 	"github.com/rqlite/rqlite/v10/internal/fsutil"
+	"github.com/rqlite/rqlite/v10/internal/vhook"
 )
 
 // RetryableError is an error that indicates whether the failed operation
@@ -112,6 +113,7 @@ func (cm *CheckpointManager) Checkpoint(w io.Writer, timeout time.Duration) (*Ch
 		return nil, 0, fmt.Errorf("stat WAL file: %w", err)
 	}
 	stats.Get(preCompactWALSize).(*expvar.Int).Set(walSzPre)
+	vhook.Trace(cm, "ckpt.begin", "walsz", walSzPre, "armed", cm.resetWatch.armed, "w", w != nil)
 
 	if walSzPre == 0 {
 		cm.resetWatch.Disarm()
@@ -148,6 +150,7 @@ func (cm *CheckpointManager) Checkpoint(w io.Writer, timeout time.Duration) (*Ch
 		return nil, 0, fmt.Errorf("read WAL salt: %w", err)
 	}
 	startFrameIdx, walReset := cm.resetWatch.Check(preChkSalt)
+	vhook.Trace(cm, "ckpt.check", "salt0", preChkSalt[0], "salt1", preChkSalt[1], "start", startFrameIdx, "reset", walReset)
 
 	compactStartTime := time.Now()
 	scanner, err := wal.NewCompactingFrameScanner(walFD, startFrameIdx, false)
@@ -164,6 +167,7 @@ func (cm *CheckpointManager) Checkpoint(w io.Writer, timeout time.Duration) (*Ch
 	}
 	recordDuration(createCompactedWALDuration, compactStartTime)
 	stats.Get(compactedWALSize).(*expvar.Int).Set(n)
+	vhook.Trace(cm, "ckpt.compact", "bytes", n, "empty", scanner.Empty())
 
 	/////////////////////////////////////////////////////////////////////////////////
 	// Now, attempt to perform a TRUNCATE checkpoint of the database. Close the WAL
@@ -185,6 +189,7 @@ func (cm *CheckpointManager) Checkpoint(w io.Writer, timeout time.Duration) (*Ch
 		// WAL was reset. Next write will start at the beginning of the WAL file.
 		stats.Add(numCheckpointWALTruncated, 1)
 		cm.resetWatch.Disarm()
+		vhook.Trace(cm, "ckpt.result", "code", rc, "pages", pnLog, "moved", pnCkpt, "outcome", "truncated")
 		return mmeta, n, nil
 	}
 	if pnCkpt < pnLog {
@@ -193,6 +198,7 @@ func (cm *CheckpointManager) Checkpoint(w io.Writer, timeout time.Duration) (*Ch
 		// Next time we will retry the checkpoint from the same offset and attempt
 		// to move all pages.
 		stats.Add(numCheckpointBusyErrors, 1)
+		vhook.Trace(cm, "ckpt.result", "code", rc, "pages", pnLog, "moved", pnCkpt, "outcome", "busy")
 		return mmeta, 0, ErrDatabaseCheckpointBusy
 	} else if pnCkpt == pnLog {
 		// In this case, the checkpoint failed, all pages were moved, but the WAL
@@ -206,9 +212,11 @@ func (cm *CheckpointManager) Checkpoint(w io.Writer, timeout time.Duration) (*Ch
 		// values, so arm the watch with the salt and resume frame we will need.
 		stats.Add(numCheckpointPartial, 1)
 		cm.resetWatch.Arm(preChkSalt, int64(pnCkpt))
+		vhook.Trace(cm, "ckpt.result", "code", rc, "pages", pnLog, "moved", pnCkpt, "outcome", "allmoved")
 		return mmeta, 0, nil
 	}
 	stats.Add(numCheckpointInvariantErrors, 1)
+	vhook.Trace(cm, "ckpt.result", "code", rc, "pages", pnLog, "moved", pnCkpt, "outcome", "invariant")
 	return mmeta, 0, ErrDatabaseCheckpointInvariant
 }
 
